@@ -27,7 +27,8 @@ inline arr_real arange(real_t stop) {
 }
 
 inline arr_real arange(int start, int stop, int step = 1) {
-    const auto n = (int)std::round((stop - start) / double(step));
+    const auto cnt = (int)std::ceil((stop - start) / double(step));
+    const int n = (cnt > 0) ? cnt : 0;
     arr_real r(n);
     for (int i = 0; i < n; ++i) {
         r[i] = start;
